@@ -4,6 +4,8 @@ from .props import HDR, standard
 
 
 def _replace():
+    """VERIF_REPLACE="rel/path.go=/abs/mutant.go[,...]": overlay-replace files of /repo by scratch copies
+    (used to check that the check has teeth; never set by registered commands)."""
     r = {}
     for kv in filter(None, os.environ.get("VERIF_REPLACE", "").split(",")):
         k, v = kv.split("=", 1)
@@ -17,10 +19,13 @@ RQ = "C16/zz_verif_c16rq_test.go"
 
 def run(ctx):
     quick = ctx.tier == "quick"
-    n_runq = 800 if quick else 20000
-    n_sync = 800 if quick else 20000
+    n_runq = 500 if quick else 20000
+    n_sync = 500 if quick else 20000
+    n_wp = 200 if quick else 6000
+    n_e2e = 2 if quick else 40
 
     def stages(ctx, mult, suffix, off):
+        # (i) scheduler: runQueue and sync call logs against recording stub pool/queue
         rq_hdr = HDR.format(imports="model.C16_runq model.C16_runq_run")
         ctx.stage("runq" + suffix, SCHED, "scheduler", [RQ], "TestVerifC16RQ$", n_runq * mult, rq_hdr, seed_offset=off + 14,
                   shard=400, env={"VERIF_STAGE": "runq" + suffix}, replace=_replace())
@@ -30,4 +35,16 @@ def run(ctx):
         if not suffix:
             ctx.stage("syncexh", SCHED, "scheduler", [RQ, "C14/zz_verif_c14sync_test.go"], "TestVerifC14SyncExh$", 0,
                       sy_hdr, shard=400, env={"VERIF_STAGE": "syncexh"}, replace=_replace())
-    return standard(ctx, "C14", ["model/C16_runq_run.vo", "model/C14_sync_run.vo"], stages, rule="", assumptions=[])
+        # (ii) worker bookkeeping: operation sequences through the real worker.Pool
+        wp_hdr = HDR.format(imports="model.C16_runq model.C14_pool model.C14_wp_run")
+        ctx.stage("wp" + suffix, "lib/dispatchcloud/worker", "worker", ["C14/zz_verif_c14wp_test.go"], "TestVerifC14WP$",
+                  n_wp * mult, wp_hdr, seed_offset=off, shard=25, env={"VERIF_STAGE": "wp" + suffix, "VERIF_WPMODE": "c14"},
+                  replace=_replace())
+        # (iii) end-to-end exploration: real dispatcher against the stub cloud, event log judged in Coq
+        if not suffix:
+            ctx.stage("e2e", "lib/dispatchcloud", "dispatchcloud", ["C14/zz_verif_c14e2e_test.go"], "TestVerifC14E2E$",
+                      n_e2e, HDR.format(imports="model.C14_e2e_run"), shard=1,
+                      env={"VERIF_STAGE": "e2e", "VERIF_E2EMODE": "c14", "VERIF_BIG": "0" if quick else "1"}, timeout=2400,
+                      replace=_replace())
+    return standard(ctx, "C14", ["model/C16_runq_run.vo", "model/C14_sync_run.vo", "model/C14_wp_run.vo", "model/C14_e2e_run.vo"],
+                    stages, rule="", assumptions=[])
